@@ -13,13 +13,34 @@ Definition Rv (rho : nat -> nat) (root : writer) (o : option nat) (v : Z) : Prop
   | None => v = (-1)%Z
   end.
 
+Definition Rq (rho : nat -> nat) (root : writer) (q : nat * option nat) (e : nat * Z) : Prop :=
+  fst q = fst e /\ Rv rho root (snd q) (snd e).
+
 Record Jrho (rho : nat -> nat) (V : nat -> Z) (root : writer) (fs : fstate)
        (P : list (nat * nat)) (Q : list (nat * option nat)) : Prop := mkJ {
   j_heap : HInv V (f_heap fs) (wx rho root);
   j_req : Forall (fun e => V (fst e) = Z.of_nat (snd e)) (wreq rho 0 root);
   j_cells : NoDup (map fst (wreq rho 0 root));
-  j_pend : forall x, In x P <-> In x (wpend rho root);
-  j_log : forall k v, In (k, v) (f_log fs ++ upend V (f_heap fs)) <-> exists o, In (k, o) Q /\ Rv rho root o v }.
+  j_pend : Permutation P (wpend rho root);
+  j_log : exists L, Permutation (f_log fs ++ upend V (f_heap fs)) L /\ Forall2 (Rq rho root) Q L }.
+
+(* ---- list facts *)
+Lemma Permutation_filter' {A} (f : A -> bool) l l' : Permutation l l' -> Permutation (filter f l) (filter f l').
+Proof.
+  induction 1 as [|x l l' _ IH|x y l|l l' l'' _ IH1 _ IH2]; cbn; [constructor| | |].
+  - destruct (f x); [constructor|]; exact IH.
+  - destruct (f x), (f y); try reflexivity. apply Permutation.perm_swap.
+  - exact (Permutation_trans IH1 IH2).
+Qed.
+Lemma filter_true {A} (f : A -> bool) l : (forall x, In x l -> f x = true) -> filter f l = l.
+Proof. induction l as [|x l IH]; intros H; [reflexivity|]. cbn. rewrite (H x (or_introl eq_refl)), IH; auto. intros y Hy. apply H. right. exact Hy. Qed.
+Lemma filter_false {A} (f : A -> bool) l : (forall x, In x l -> f x = false) -> filter f l = [].
+Proof. induction l as [|x l IH]; intros H; [reflexivity|]. cbn. rewrite (H x (or_introl eq_refl)), IH; auto. intros y Hy. apply H. right. exact Hy. Qed.
+Lemma Forall2_impl' {A B} (R R' : A -> B -> Prop) l l' : (forall a b, R a b -> R' a b) -> Forall2 R l l' -> Forall2 R' l l'.
+Proof. intros H. induction 1; constructor; auto. Qed.
+Lemma Forall2_maps {A B C} (R : B -> C -> Prop) (f : A -> B) (g : A -> C) l :
+  (forall x, In x l -> R (f x) (g x)) -> Forall2 R (map f l) (map g l).
+Proof. induction l as [|x l IH]; intros H; cbn; constructor; [apply H; left; reflexivity|apply IH; intros y Hy; apply H; right; exact Hy]. Qed.
 
 (* anonymous writers carry no callbacks; numPagesCb holds Updates only *)
 Inductive w_shape : writer -> Prop :=
@@ -142,6 +163,11 @@ Proof.
       pose proof (Permutation_NoDup (Permutation_map fst Pq) J3) as Hn. rewrite !map_app in Hn. cbn [map fst] in Hn.
       rewrite <- app_assoc in Hn. cbn [app] in Hn. apply NoDup_remove_2 in Hn. apply Hn. rewrite <- map_app, <- Ec. apply in_map. exact Hx. }
     split; [exact Hne|]. rewrite B3 by assumption. rewrite Forall_forall in J2. exact (J2 x Hin). }
+  assert (forall y, In y L \/ In y (cpend rho C) -> fst y <> i) as Hni.
+  { intros y Hy Ey. pose proof (Permutation_NoDup (wids_plug C t) Hnd) as Hn. cbn [wids t app] in Hn.
+    apply NoDup_cons_iff in Hn as [Hnot _]. apply Hnot. rewrite <- Ey. destruct Hy as [Hy|Hy]; apply in_or_app.
+    - left. exact (lpend_ids rho ch _ _ Hy).
+    - right. exact (cpend_ids rho C _ Hy). }
   exists V'. constructor.
   - (* heap *)
     apply (HInv_perm _ _ (wx rho (plug C t))); [|exact B1].
@@ -157,70 +183,36 @@ Proof.
     rewrite <- app_assoc in *. cbn [app] in *. apply (NoDup_swap_mid _ _ c); [exact Hn|].
     rewrite <- map_app. intros Hin. apply in_map_iff in Hin as (x & Ex' & Hx). destruct (Hothers x Hx) as [Hne _]. congruence.
   - (* pending registrations *)
-    intros [j k]. rewrite filter_In. rewrite (J4 (j, k)).
-    assert (forall y, In y L \/ In y (cpend rho C) -> fst y <> i) as Hni.
-    { intros y Hy Ey. pose proof (Permutation_NoDup (wids_plug C t) Hnd) as Hn. cbn [wids t app] in Hn.
-      apply NoDup_cons_iff in Hn as [Hnot _]. apply Hnot. rewrite <- Ey. destruct Hy as [Hy|Hy]; apply in_or_app.
-      - left. exact (lpend_ids rho ch _ _ Hy).
-      - right. exact (cpend_ids rho C _ Hy). }
-    split.
-    + intros [Hin Hne]. apply negb_true_iff, Nat.eqb_neq in Hne.
-      apply (Permutation_in _ (wpend_plug rho C t)) in Hin. apply (Permutation_in _ (Permutation_sym (wpend_plug rho C t'))).
-      rewrite Epend in Hin. rewrite Epend'. apply in_app_or in Hin as [Hin|Hin]; apply in_or_app; [|auto].
-      apply in_app_or in Hin as [Hin|Hin]; [left; apply in_or_app; auto|].
-      apply in_map_iff in Hin as (k' & E' & _). injection E' as E' _. congruence.
-    + intros Hin. apply (Permutation_in _ (wpend_plug rho C t')) in Hin. rewrite Epend', app_nil_r in Hin. split.
-      * apply (Permutation_in _ (Permutation_sym (wpend_plug rho C t))). rewrite Epend.
-        apply in_app_or in Hin as [Hin|Hin]; apply in_or_app; [left; apply in_or_app|]; auto.
-      * apply negb_true_iff, Nat.eqb_neq. apply in_app_or in Hin. apply (Hni (j, k)). exact Hin.
+    apply Permutation_trans with (filter (fun '(w', _) => negb (w' =? i)) (wpend rho (plug C t)));
+      [apply Permutation_filter'; exact J4|].
+    rewrite (Permutation_filter' _ _ _ (wpend_plug rho C t)), wpend_plug, Epend, Epend', !filter_app, app_nil_r.
+    rewrite (filter_true _ L), (filter_false _ (map (pair i) pn)), (filter_true _ (cpend rho C)), app_nil_r; [reflexivity|..].
+    + intros [j k] Hy. apply negb_true_iff, Nat.eqb_neq. exact (Hni (j, k) (or_intror Hy)).
+    + intros [j k] Hy. apply in_map_iff in Hy as (k' & E' & _). injection E' as <- _. rewrite Nat.eqb_refl. reflexivity.
+    + intros [j k] Hy. apply negb_true_iff, Nat.eqb_neq. exact (Hni (j, k) (or_introl Hy)).
   - (* the callbacks *)
-    assert (forall k, In (i, k) P <-> In k pn) as Hhit.
-    { intros k. rewrite (J4 (i, k)). split.
-      - intros Hin. apply (Permutation_in _ (wpend_plug rho C t)) in Hin. rewrite Epend in Hin.
-        apply in_app_or in Hin as [Hin|Hin]; [apply in_app_or in Hin as [Hin|Hin]|].
-        + exfalso. pose proof (Permutation_NoDup (wids_plug C t) Hnd) as Hn. cbn [wids t app] in Hn.
-          apply NoDup_cons_iff in Hn as [Hnot _]. apply Hnot. apply in_or_app. left. exact (lpend_ids rho ch _ _ Hin).
-        + apply in_map_iff in Hin as (k' & E' & Hk). injection E' as ->. exact Hk.
-        + exfalso. pose proof (Permutation_NoDup (wids_plug C t) Hnd) as Hn. cbn [wids t app] in Hn.
-          apply NoDup_cons_iff in Hn as [Hnot _]. apply Hnot. apply in_or_app. right. exact (cpend_ids rho C _ Hin).
-      - intros Hk. apply (Permutation_in _ (Permutation_sym (wpend_plug rho C t))). rewrite Epend.
-        apply in_or_app. left. apply in_or_app. right. apply in_map. exact Hk. }
-    assert (forall x, In x (wlay rho 0 (plug C t')) <-> In x (wlay rho 0 (plug C t)) \/ x = (p, e)) as Hlay.
-    { intros x. split.
-      - intros Hin. apply (Permutation_in _ (wlay_plug rho C t')) in Hin. fold off in Hin. rewrite Esize, Elay in Hin.
-        apply in_app_or in Hin as [Hin|Hin]; [apply in_app_or in Hin as [Hin|[<-|[]]]|]; auto; left;
-          apply (Permutation_in _ (Permutation_sym (wlay_plug rho C t))); apply in_or_app; auto.
-      - intros [Hin| ->].
-        + apply (Permutation_in _ (wlay_plug rho C t)) in Hin. apply (Permutation_in _ (Permutation_sym (wlay_plug rho C t'))).
-          fold off in Hin. fold off. rewrite Esize, Elay. apply in_app_or in Hin as [Hin|Hin]; apply in_or_app; [left; apply in_or_app|]; auto.
-        + apply (Permutation_in _ (Permutation_sym (wlay_plug rho C t'))). fold off. rewrite Elay.
-          apply in_or_app. left. apply in_or_app. right. left. reflexivity. }
-    assert (forall q pos, In (q, pos) (wlay rho 0 (plug C t)) -> q <> p) as Hold.
-    { intros q pos Hin ->. apply Hfresh. rewrite <- (wlay_pages rho _ 0). apply (in_map fst) in Hin. exact Hin. }
-    intros k v.
-    assert (In (k, v) (f_log fs2 ++ upend V' (f_heap fs2)) <->
-            In (k, v) (map (fun k0 => (k0, V c)) pn) \/ In (k, v) (f_log (g_f st) ++ upend V (f_heap (g_f st)))) as ->.
-    { split.
-      - intros Hin. apply (Permutation_in _ B7) in Hin. apply (Permutation_in _ A3) in Hin. apply in_app_or in Hin. exact Hin.
-      - intros Hin. apply (Permutation_in _ (Permutation_sym B7)). apply (Permutation_in _ (Permutation_sym A3)).
-        apply in_or_app. exact Hin. }
-    rewrite (J5 k v). split.
-    + intros [Hin|(o & Ho & HR)].
-      * apply in_map_iff in Hin as (k' & E' & Hk). injection E' as -> <-.
-        exists (Some p). split.
-        -- apply in_or_app. right. apply in_map_iff. exists (i, k). split; [reflexivity|].
-           apply filter_In. split; [apply Hhit; exact Hk|apply Nat.eqb_refl].
-        -- cbn [Rv]. exists e. split; [apply Hlay; auto|exact HVc].
-      * exists o. split; [apply in_or_app; auto|]. destruct o as [q|]; [|exact HR].
-        destruct HR as (pos & Hin & Ev). exists pos. split; [apply Hlay; auto|exact Ev].
-    + intros (o & Ho & HR). apply in_app_or in Ho as [Ho|Ho].
-      * right. exists o. split; [exact Ho|]. destruct o as [q|]; [|exact HR].
-        destruct HR as (pos & Hin & Ev). exists pos. split; [|exact Ev]. apply Hlay in Hin as [Hin|E']; [exact Hin|].
-        injection E' as -> ->. exfalso. apply Hfresh. exact (Hres _ _ Ho).
-      * apply in_map_iff in Ho as ([j k'] & E' & Hf). injection E' as -> <-. apply filter_In in Hf as [Hf Ej].
-        apply Nat.eqb_eq in Ej. subst j. left. destruct HR as (pos & Hin & Ev).
-        apply Hlay in Hin as [Hin|E']; [exfalso; exact (Hold _ _ Hin eq_refl)|]. injection E' as ->.
-        apply in_map_iff. exists k. split; [rewrite HVc, Ev; reflexivity|apply Hhit; exact Hf].
+    destruct J5 as (L0 & PL & FL).
+    assert (Permutation (filter (fun '(w', _) => w' =? i) P) (map (pair i) pn)) as Phit.
+    { apply Permutation_trans with (filter (fun '(w', _) => w' =? i) (wpend rho (plug C t)));
+        [apply Permutation_filter'; exact J4|].
+      rewrite (Permutation_filter' _ _ _ (wpend_plug rho C t)), Epend, !filter_app.
+      rewrite (filter_false _ L), (filter_true _ (map (pair i) pn)), (filter_false _ (cpend rho C)), app_nil_r; [reflexivity|..].
+      - intros [j k] Hy. apply Nat.eqb_neq. exact (Hni (j, k) (or_intror Hy)).
+      - intros [j k] Hy. apply in_map_iff in Hy as (k' & E' & _). injection E' as <- _. apply Nat.eqb_refl.
+      - intros [j k] Hy. apply Nat.eqb_neq. exact (Hni (j, k) (or_introl Hy)). }
+    assert (forall x, In x (wlay rho 0 (plug C t)) \/ x = (p, e) -> In x (wlay rho 0 (plug C t'))) as Hlay.
+    { intros x [Hin| ->].
+      - apply (Permutation_in _ (wlay_plug rho C t)) in Hin. apply (Permutation_in _ (Permutation_sym (wlay_plug rho C t'))).
+        fold off in Hin. fold off. rewrite Esize, Elay. apply in_app_or in Hin as [Hin|Hin]; apply in_or_app; [left; apply in_or_app|]; auto.
+      - apply (Permutation_in _ (Permutation_sym (wlay_plug rho C t'))). fold off. rewrite Elay.
+        apply in_or_app. left. apply in_or_app. right. left. reflexivity. }
+    exists (L0 ++ map (fun '(_, k) => (k, V c)) (filter (fun '(w', _) => w' =? i) P)). split.
+    + rewrite B7, A3, (Permutation_app_comm (map (fun k => (k, V c)) pn)). apply Permutation_app; [exact PL|].
+      rewrite (Permutation_map (fun '(_, k) => (k, V c)) Phit), map_map. reflexivity.
+    + apply Forall2_app.
+      * apply (Forall2_impl' (Rq rho (plug C t))); [|exact FL]. intros [k o] [k' v] [E1 E2]. split; [exact E1|].
+        cbn [snd] in *. destruct o as [q|]; [|exact E2]. destruct E2 as (pos & Hin & Ev). exists pos. split; [apply Hlay; auto|exact Ev].
+      * apply Forall2_maps. intros [j k] _. split; [reflexivity|]. cbn [snd Rv]. exists e. split; [apply Hlay; auto|exact HVc].
 Qed.
 
 (* ---- an operation that leaves sizes, positions, debts and the heap alone *)
@@ -257,31 +249,22 @@ Proof.
     try (intros off; unfold wreq, wlay, t, t'; rewrite !wfold_eq; reflexivity);
     try (unfold wx, t, t'; rewrite !wfold_eq; reflexivity).
   destruct J as [J1 J2 J3 J4 J5]. constructor; auto.
-  - intros x. rewrite in_app_iff, (J4 x).
-    assert (Permutation (wpend rho (plug C t')) (wpend rho (plug C t) ++ [(i, k)])) as Pp.
+  - assert (Permutation (wpend rho (plug C t')) (wpend rho (plug C t) ++ [(i, k)])) as Pp.
     { rewrite !wpend_plug. unfold wpend, t, t'. rewrite !wfold_eq. unfold loc_pend. cbn [named_open]. rewrite map_app. cbn [map].
       rewrite <- !app_assoc. apply Permutation_app_head. apply Permutation_app_head. apply Permutation_app_comm. }
-    split.
-    + intros Hin. apply (Permutation_in _ (Permutation_sym Pp)). apply in_or_app. exact Hin.
-    + intros Hin. apply (Permutation_in _ Pp) in Hin. apply in_app_or in Hin. exact Hin.
-  - intros k0 v. rewrite (J5 k0 v). split; intros (o & Ho & HR); exists o; (split; [exact Ho|]); apply A4; exact HR.
+    rewrite Pp. apply Permutation_app_tail. exact J4.
+  - destruct J5 as (L0 & PL & FL). exists L0. split; [exact PL|].
+    apply (Forall2_impl' (Rq rho (plug C t))); [|exact FL]. intros [k0 o] [k' v] [E1 E2]. split; [exact E1|apply A4; exact E2].
 Qed.
 
 (* a callback told -1 at once *)
 Lemma fire_none_J rho V root fs k P Q :
   Jrho rho V root fs P Q -> Jrho rho V root (mkF (f_heap fs) (f_log fs ++ [(k, (-1)%Z)])) P (Q ++ [(k, None)]).
 Proof.
-  intros [J1 J2 J3 J4 J5]. constructor; auto. cbn [f_heap f_log]. intros k0 v.
-  assert (In (k0, v) ((f_log fs ++ [(k, (-1)%Z)]) ++ upend V (f_heap fs)) <->
-          In (k0, v) (f_log fs ++ upend V (f_heap fs)) \/ (k0, v) = (k, (-1)%Z)) as ->.
-  { rewrite !in_app_iff. cbn [In]. split; [intros [[H|[H|[]]]|H]|intros [[H|H]|H]]; auto. }
-  rewrite (J5 k0 v). split.
-  - intros [(o & Ho & HR)|E].
-    + exists o. split; [apply in_or_app; auto|exact HR].
-    + injection E as -> ->. exists None. split; [apply in_or_app; right; left; reflexivity|reflexivity].
-  - intros (o & Ho & HR). apply in_app_or in Ho as [Ho|[E|[]]].
-    + left. exists o. auto.
-    + injection E as <- <-. cbn in HR. subst v. right. reflexivity.
+  intros [J1 J2 J3 J4 J5]. constructor; auto. cbn [f_heap f_log]. destruct J5 as (L0 & PL & FL).
+  exists (L0 ++ [(k, (-1)%Z)]). split.
+  - rewrite <- app_assoc, (Permutation_app_comm [(k, (-1)%Z)]), app_assoc. apply Permutation_app_tail. exact PL.
+  - apply Forall2_app; [exact FL|]. constructor; [|constructor]. split; reflexivity.
 Qed.
 
 (* ---- NewRange *)
@@ -389,16 +372,13 @@ Proof.
     + rewrite Forall_forall in *. intros x Hx. rewrite HV by exact (Hval x Hx). exact (J2 x Hx).
   - apply (Permutation_NoDup (Permutation_map fst (Permutation_sym Pq2))). cbn [map fst]. constructor; [|exact J3].
     intros Hin. apply in_map_iff in Hin as (x & Ex' & Hx). pose proof (Hval x Hx). lia.
-  - intros x. rewrite (J4 x). rewrite !wpend_plug, Epend. reflexivity.
+  - rewrite J4, !wpend_plug, Epend. reflexivity.
   - assert (Permutation (wlay rho 0 (plug C t')) (wlay rho 0 (plug C t))) as Pl.
     { rewrite !wlay_plug, Esize, Elay. reflexivity. }
-    intros k v.
-    assert (In (k, v) (f_log fs2 ++ upend V' (f_heap fs2)) <-> In (k, v) (f_log (g_f st) ++ upend V h)) as ->.
-    { split; intros Hin; [exact (Permutation_in _ A3 Hin)|exact (Permutation_in _ (Permutation_sym A3) Hin)]. }
-    rewrite (J5 k v). split; intros (o & Ho & HR); exists o; (split; [exact Ho|]); (destruct o as [q|]; [|exact HR]);
-      destruct HR as (pos & Hin & Ev); exists pos; (split; [|exact Ev]).
-    + exact (Permutation_in _ (Permutation_sym Pl) Hin).
-    + exact (Permutation_in _ Pl Hin).
+    destruct J5 as (L0 & PL & FL). exists L0. split; [rewrite A3; exact PL|].
+    apply (Forall2_impl' (Rq rho (plug C t))); [|exact FL]. intros [k0 o] [k' v] [E1 E2]. split; [exact E1|].
+    cbn [snd] in *. destruct o as [q|]; [|exact E2]. destruct E2 as (pos & Hin & Ev). exists pos. split; [|exact Ev].
+    exact (Permutation_in _ (Permutation_sym Pl) Hin).
 Qed.
 
 (* ---- Close *)
@@ -535,40 +515,30 @@ Proof.
   - apply (Permutation_Forall (Permutation_sym Pq')). apply (Permutation_Forall Pq) in J2. apply Forall_app in J2. apply J2.
   - apply (Permutation_NoDup (Permutation_map fst (Permutation_sym Pq'))).
     apply (Permutation_NoDup (Permutation_map fst Pq)) in J3. rewrite map_app in J3. exact (NoDup_app_remove_l _ _ J3).
-  - intros [j k]. rewrite filter_In, (J4 (j, k)). split.
-    + intros [Hin Hs]. apply negb_true_iff in Hs. apply (Permutation_in _ (wpend_plug rho C t)) in Hin.
-      apply (Permutation_in _ (Permutation_sym (wpend_plug rho C t'))). rewrite Ep. cbn [app].
-      apply in_app_or in Hin as [Hin|Hin]; [|exact Hin]. pose proof (Hsel1 _ Hin) as Hs'. cbn [fst] in Hs'. congruence.
-    + intros Hin. apply (Permutation_in _ (wpend_plug rho C t')) in Hin. rewrite Ep in Hin. cbn [app] in Hin. split.
-      * apply (Permutation_in _ (Permutation_sym (wpend_plug rho C t))). apply in_or_app. auto.
-      * apply negb_true_iff. apply Hsel2. exact (cpend_ids rho C _ Hin).
-  - assert (forall j k, In (j, k) P /\ sel j = true <-> In (j, k) (wpend rho t)) as Hhit.
-    { intros j k. rewrite (J4 (j, k)). split.
-      - intros [Hin Hs]. apply (Permutation_in _ (wpend_plug rho C t)) in Hin. apply in_app_or in Hin as [Hin|Hin]; [exact Hin|].
-        pose proof (Hsel2 _ (cpend_ids rho C _ Hin)) as Hs'. cbn [fst] in Hs'. congruence.
-      - intros Hin. split; [|exact (Hsel1 _ Hin)]. apply (Permutation_in _ (Permutation_sym (wpend_plug rho C t))). apply in_or_app. auto. }
+  - apply Permutation_trans with (filter (fun '(w', _) => negb (sel w')) (wpend rho (plug C t)));
+      [apply Permutation_filter'; exact J4|].
+    rewrite (Permutation_filter' _ _ _ (wpend_plug rho C t)), wpend_plug, Ep, filter_app. cbn [app].
+    rewrite (filter_false _ (wpend rho t)), (filter_true _ (cpend rho C)); [reflexivity|..].
+    + intros [j k] Hy. apply negb_true_iff. exact (Hsel2 _ (cpend_ids rho C _ Hy)).
+    + intros [j k] Hy. apply negb_false_iff. exact (Hsel1 _ Hy).
+  - destruct J5 as (L0 & PL & FL).
+    assert (Permutation (filter (fun '(w', _) => sel w') P) (wpend rho t)) as Phit.
+    { apply Permutation_trans with (filter (fun '(w', _) => sel w') (wpend rho (plug C t)));
+        [apply Permutation_filter'; exact J4|].
+      rewrite (Permutation_filter' _ _ _ (wpend_plug rho C t)), filter_app.
+      rewrite (filter_true _ (wpend rho t)), (filter_false _ (cpend rho C)), app_nil_r; [reflexivity|..].
+      - intros [j k] Hy. exact (Hsel2 _ (cpend_ids rho C _ Hy)).
+      - intros [j k] Hy. exact (Hsel1 _ Hy). }
     assert (Permutation (wlay rho 0 (plug C t')) (wlay rho 0 (plug C t))) as Pl.
     { rewrite !wlay_plug, Esize, Elay. reflexivity. }
-    assert (forall o v, Rv rho (plug C t') o v <-> Rv rho (plug C t) o v) as HRv.
-    { intros [q|] v; [|reflexivity]. cbn [Rv]. split; intros (pos & Hin & Ev); exists pos; (split; [|exact Ev]).
-      - exact (Permutation_in _ Pl Hin).
-      - exact (Permutation_in _ (Permutation_sym Pl) Hin). }
-    intros k v.
-    assert (In (k, v) (f_log (g_f st') ++ upend V (f_heap (g_f st'))) <->
-            In (k, v) (f_log (g_f st) ++ upend V (f_heap (g_f st))) \/ In (k, v) (map minus1 (wpend rho t))) as ->.
-    { split.
-      - intros Hin. apply (Permutation_in _ A3) in Hin. rewrite app_assoc in Hin. apply in_app_or in Hin. exact Hin.
-      - intros Hin. apply (Permutation_in _ (Permutation_sym A3)). rewrite app_assoc. apply in_or_app. exact Hin. }
-    rewrite (J5 k v). split.
-    + intros [(o & Ho & HR)|Hin].
-      * exists o. split; [apply in_or_app; auto|apply HRv; exact HR].
-      * apply in_map_iff in Hin as ([j k'] & E' & Hin). unfold minus1 in E'. cbn [snd] in E'. injection E' as -> <-.
-        exists None. split; [|reflexivity]. apply in_or_app. right. apply in_map_iff. exists (j, k). split; [reflexivity|].
-        apply filter_In. apply Hhit in Hin. exact Hin.
-    + intros (o & Ho & HR). apply in_app_or in Ho as [Ho|Ho].
-      * left. exists o. split; [exact Ho|apply HRv; exact HR].
-      * apply in_map_iff in Ho as ([j k'] & E' & Hf). injection E' as -> <-. cbn [Rv] in HR. subst v.
-        apply filter_In in Hf. apply Hhit in Hf. right. apply in_map_iff. exists (j, k). auto.
+    exists (L0 ++ map (fun '(_, k) => (k, (-1)%Z)) (filter (fun '(w', _) => sel w') P)). split.
+    + rewrite A3, app_assoc. apply Permutation_app; [exact PL|].
+      rewrite (Permutation_map (fun '(_, k) => (k, (-1)%Z)) Phit). apply Permutation_refl'. apply map_ext. intros [j k]. reflexivity.
+    + apply Forall2_app.
+      * apply (Forall2_impl' (Rq rho (plug C t))); [|exact FL]. intros [k0 o] [k' v] [E1 E2]. split; [exact E1|].
+        cbn [snd] in *. destruct o as [q|]; [|exact E2]. destruct E2 as (pos & Hin & Ev). exists pos. split; [|exact Ev].
+        exact (Permutation_in _ (Permutation_sym Pl) Hin).
+      * apply Forall2_maps. intros [j k] _. split; reflexivity.
 Qed.
 
 (* the invariant for every choice of final sizes *)
@@ -580,8 +550,9 @@ Lemma Jrho_ext rho rho' V root fs P Q : (forall j, In j (woids root) -> rho j = 
 Proof.
   intros H [J1 J2 J3 J4 J5]. destruct (folds_ext rho rho' root H) as (_ & E1 & E2 & E3 & E4).
   constructor; rewrite <- ?E2, <- ?E3, <- ?E4; auto.
-  intros k v. rewrite (J5 k v). split; intros (o & Ho & HR); exists o; (split; [exact Ho|]); destruct o as [q|]; auto;
-    cbn [Rv] in *; [rewrite <- E1|rewrite E1]; exact HR.
+  destruct J5 as (L0 & PL & FL). exists L0. split; [exact PL|].
+  apply (Forall2_impl' (Rq rho root)); [|exact FL]. intros [k0 o] [k' v] [A B]. split; [exact A|].
+  cbn [snd] in *. destruct o as [q|]; [|exact B]. cbn [Rv] in *. rewrite <- E1. exact B.
 Qed.
 
 Lemma close_Jall C t t' st st' P Q (sel : nat -> bool) :
